@@ -249,9 +249,10 @@ func execKeys(a []string) Result {
 		chk(!ka.Verifier().Verify(msg, sb), "another key's signature accepted")
 	}
 	// wrapping changes only the DID
-	wd, _ := did.Parse("did:web:wrapped.example.com")
+	wdStr := []string{"did:web:wrapped.example.com", "did:web:Wrapped.Example.com:Users:Alice", "did:web:localhost%3A8080", "did:dns:UP.example"}[len(msg)%4]
+	wd, _ := did.Parse(wdStr)
 	if ws, err := signer.Wrap(ka, wd); err == nil {
-		chk(ws.DID() == wd && ws.Verifier().DID() == wd, "wrap: DID")
+		chk(ws.DID() == wd && ws.Verifier().DID() == wd && ws.DID().String() == wdStr, "wrap: DID")
 		chk(bytes.Equal(ws.Encode(), ka.Encode()) && ws.Code() == ka.Code(), "wrap: key bytes")
 		chk(ws.Verifier().Verify(msg, ws.Sign(msg)) && ka.Verifier().Verify(msg, ws.Sign(msg)), "wrap: signatures")
 		chk(ws.Unwrap().DID() == ka.DID(), "unwrap")
@@ -293,6 +294,7 @@ func genC14(cfg Config, emit Emit) error {
 		emit("didparse", []string{hexTok(append([]byte("did:key:"), s...))}, "didkey-exhaustive", true)
 	}
 	real := []string{"did:web:example.com", "did:mailto:web.mail:alice", "did:", "did", "", "DID:key:z6Mk", "did:key:", "did:key:z", "did:key:m", "did:web:üñí", "did:日本:x",
+		"did:web:Example.COM", "did:web:example.com:Users:Alice", "did:web:localhost%3A8080", "did:mailto:example.com:alice%2Btag", "did:web:EXAMPLE.com:path%3a", "did:dns:Alice.Example", "did:web:a.b:C%2F", "did:plc:Z72I7hdynmk6r22z27h6tvur", "did:web:%41",
 		"did:key:z6MkheLzuHHrrtCVKuJVTAGUZnt48mnXRURTrb2Srrpa3ZeX", "did:key:z6MkheLzuHHrrtCVKuJVTAGUZnt48mnXRURTrb2Srrpa3Ze0", "x" + edPool[0].DID().String(), edPool[0].DID().String() + " ", "did:key:" + edPool[0].DID().String()[9:]}
 	for i := 0; i < edPoolSize; i++ {
 		real = append(real, edPool[i].DID().String())
